@@ -348,6 +348,11 @@ def generic_refuses(ctx) -> None:
             continue
         fv = ctx.fv(f, base)
         hooks = [cs.node for cs in fv.calls() if cs.callee.kind == "func" and cs.callee.func.name == "_get_well_position"]
+        # a hook call that runs for every element of a loop: the loop statement is the point where the hook is consulted
+        for h_ in list(hooks):
+            lps = [x for x in fv.cfg.enclosing_loops(h_) if fv.cfg.nodes[x].kind == "for"]
+            if lps and not fv.controlling(h_, within=fv.cfg.loop_body[lps[0]]):
+                hooks.append(lps[0])
         emits = [n.id for n in fv.cfg.nodes if any(e.kind == "EMIT" and e.arg in ("A", "D", "R") for e in ctx.E.node_effects(fv, n))]
         emits = [e for e in emits if e not in hooks]
         early = ctx.E.must_precede(fv, hooks, emits)
